@@ -579,23 +579,24 @@ fn boxed(ctx: &mut Ctx) {
                 }
             }
         }
-        let area_alpha: [(u64, u64, u32); 7] = [(0x1000, 0x1000, 1), (0x2000, 0x1000, 1), (0x2000, 0x1000, 2), (0x3000, 0, 1), (0, 0, 1), (0xFFFF_FFFF_FFFF_E000, 0x1000, 1), (0x10_0000, 0x10_0000, 1)];
+        // (the last one is entirely zero: type 0, base 0, length 0)
+        let area_alpha: [(u64, u64, u32); 8] = [(0x1000, 0x1000, 1), (0x2000, 0x1000, 1), (0x2000, 0x1000, 2), (0x3000, 0, 1), (0, 0, 1), (0xFFFF_FFFF_FFFF_E000, 0x1000, 1), (0x10_0000, 0x10_0000, 1), (0, 0, 0)];
         let maxlen = if ctx.quick() { 3 } else { 4 };
         for len in 1..=maxlen {
-            for code in 0..7usize.pow(len as u32) {
-                let seq: Vec<(u64, u64, u32)> = (0..len).map(|i| area_alpha[(code / 7usize.pow(i as u32)) % 7]).collect();
+            for code in 0..8usize.pow(len as u32) {
+                let seq: Vec<(u64, u64, u32)> = (0..len).map(|i| area_alpha[(code / 8usize.pow(i as u32)) % 8]).collect();
                 leaf!(ctx, "MemoryMapTag::new", format!("areas {:x?} (base, length, type)", seq), |ctx| {
-                    let areas: Vec<MemoryArea> = seq.iter().map(|&(b, l, t)| MemoryArea::new(b, l, if t == 1 { MemoryAreaType::Available } else { MemoryAreaType::Reserved })).collect();
+                    let areas: Vec<MemoryArea> = seq.iter().map(|&(b, l, t)| MemoryArea::new(b, l, match t { 1 => MemoryAreaType::Available, 2 => MemoryAreaType::Reserved, _ => MemoryAreaType::Custom(0) })).collect();
                     let ents: Vec<(u64, u64, u32, u32)> = seq.iter().map(|&(b, l, t)| (b, l, t, 0)).collect();
                     let want = bi::enc_mmap(24, 0, &ents);
                     let got = ctx.call("new", || { let t = MemoryMapTag::new(&areas); built_bi(ctx_dummy(), &*t, &|b, t| battery::mmap(b, t)) });
                     judge(ctx, "MemoryMapTag::new", "", got, &want, decode::tag(bi::MMAP, &want, true, true), false);
                 });
                 leaf!(ctx, "EFIMemoryMapTag::new_from_descs", format!("descriptors {:x?} (phys start, pages * 4096, type)", seq), |ctx| {
-                    let descs: Vec<EFIMemoryDesc> = seq.iter().map(|&(b, l, t)| EFIMemoryDesc { ty: EFIMemoryAreaType(6 + t), phys_start: b, virt_start: 0, page_count: l / 4096, att: EFIMemoryAttribute::from_bits_retain(0xF) }).collect();
+                    let descs: Vec<EFIMemoryDesc> = seq.iter().map(|&(b, l, t)| EFIMemoryDesc { ty: EFIMemoryAreaType(if t == 0 { 0 } else { 6 + t }), phys_start: b, virt_start: 0, page_count: l / 4096, att: EFIMemoryAttribute::from_bits_retain(if t == 0 { 0 } else { 0xF }) }).collect();
                     let mut map = Vec::new();
                     for &(b, l, t) in &seq {
-                        map.extend(bi::enc_efi_desc(6 + t, b, 0, l / 4096, 0xF));
+                        map.extend(bi::enc_efi_desc(if t == 0 { 0 } else { 6 + t }, b, 0, l / 4096, if t == 0 { 0 } else { 0xF }));
                     }
                     let want = bi::enc_efi_mmap(40, 1, &map);
                     let n = seq.len();
@@ -672,7 +673,7 @@ fn run(ctx: &mut Ctx) {
     let arena = Arena::new(1);
     ctx.bound("sized", "every sized constructor of both crates: a marker argument tuple, {0,1,MAX,MAX-1,0x80..} per argument, every single-byte perturbation of every argument with {00,01,02,04,08,10,20,40,80,FF}; enumerated arguments over all variants; as_bytes() at every address residue the type's alignment permits");
     ctx.bound("boxed_elf_arguments", "ElfSectionsTag::new: number 0/1/3/0xFFFF x entry size 40/64/0/48 x string-table index over EDGE32 + {0xFF00, 0xFFF1, 0xFFF2, 0xFF1F, 40, 64} x 11 section-data lengths (0..=192 bytes)");
-    ctx.bound("boxed_relational", "heap constructors with related contents: every text of length <= 4 over {a, NUL, e-acute} for the three string kinds (interior, leading, repeated, trailing NULs); every sequence of 1..=3 (thorough: 4) memory areas / EFI descriptors over 7 ranges that are equal, contiguous, overlapping, empty, of different type or end just below 2^64");
+    ctx.bound("boxed_relational", "heap constructors with related contents: every text of length <= 4 over {a, NUL, e-acute} for the three string kinds (interior, leading, repeated, trailing NULs); every sequence of 1..=3 (thorough: 4) memory areas / EFI descriptors over 8 ranges that are equal, contiguous, overlapping, empty, entirely zero, of different type or end just below 2^64");
     ctx.bound("boxed_bound", "heap constructors: content lengths 0..=24 (quick) / 0..=40 (every padding residue at least three times) and the lengths around 8- and 16-bit counter boundaries (254..257, 4095..4097, 65534..65537); 0..=4, 10, 11, 255..257 memory areas / EFI descriptors; three framebuffer colour-info variants with palettes of 0..=8, 254..257, 1000 and 65535 colours; 0..=24, 255..257, 16383, 16384 information requests");
     sized_boot(ctx, &arena);
     sized_header(ctx, &arena);
